@@ -45,7 +45,7 @@ fn c17_state_codec() {
 /// Every sequence of <= 4 updates: the code is non-decreasing; an update succeeds (returns the
 /// previous state) iff it moves strictly forward; otherwise it changes nothing.
 #[kani::proof]
-#[kani::unwind(3)]
+#[kani::unwind(6)]
 #[kani::stub(alloc::fmt::format, stub_fmt)]
 #[kani::stub(tracing::callsite::DefaultCallsite::interest, stub_tr_interest)]
 #[kani::stub(tracing::__macro_support::__is_enabled, stub_tr_enabled)]
